@@ -28,7 +28,7 @@ mutual
     | .seq a, .seq b => Ty.beq a b
     | .arr a n, .arr b m => n == m && Ty.beq a b
     | .struct x ms, .struct y ns => x == y && Ms.beq ms ns
-    | .union d bs, .union d' bs' => d == d' && Bs.beq bs bs'
+    | .union a d bs, .union a' d' bs' => a == a' && d == d' && Bs.beq bs bs'
     | _, _ => false
   def Ms.beq : Ms → Ms → Bool
     | .nil, .nil => true
@@ -49,7 +49,7 @@ mutual
     | .seq a, .seq b => KTy.beq a b
     | .arr a n, .arr b m => n == m && KTy.beq a b
     | .struct x ms, .struct y ns => x == y && KMs.beq ms ns
-    | .union d bs, .union d' bs' => d == d' && Bs.beq bs bs'
+    | .union a d bs, .union a' d' bs' => a == a' && d == d' && Bs.beq bs bs'
     | _, _ => false
   def KMs.beq : KMs → KMs → Bool
     | .nil, .nil => true
@@ -83,7 +83,7 @@ def tidOf : KTy → Tid
   | .enum _ _ _ => .complete
   | .wstr => .wstr
   | .struct _ _ => .complete
-  | .union _ _ => .complete
+  | .union _ _ _ => .complete
   | .seq el => .seq (tidOf el)
   | .arr el n => .arr n (tidOf el)
 
